@@ -111,6 +111,8 @@ def main(argv=None):
         fn["spec"] = rel
         fn["backend"] = "cbmc %s (minisat) via goto-instrument --dfcc" % ''
         fn["solver_s"] = r["tool_s"].get("cbmc")
+        if r.get("backend_fallback"):
+            fn["backend"] = "cbmc via goto-instrument --dfcc; SAT back end " + r["backend_fallback"]
         if r.get("solver_result_reused"):
             fn["solver_result_reused"] = r["solver_result_reused"]   # identical query (content hash) decided earlier in this sandbox
         fn["replaced_callees"] = list(spec.calls) + list(spec.shims)
